@@ -302,10 +302,14 @@ STREAM_BATCHES = (
     ([[0.55, 0.45, 0.05, 0.95]], [[0.6, 0.4, 0.1, 0.2]]),
     # values exactly at the decision threshold (0.5) and differences exactly equal to the block threshold (0.25)
     ([[0.5, 0.75, 0.5, 0.0], [0.25, 0.5, 1.0, 0.5]], [[0.75, 0.5, 0.25, 0.0], [0.5, 0.5, 1.0, 0.75]]),
+    # an error-free batch (x == y)
+    ([[0.9, 0.1, 0.2, 0.8], [0.3, 0.7, 0.6, 0.4], [1.0, 0.0, 1.0, 0.0]], [[0.9, 0.1, 0.2, 0.8], [0.3, 0.7, 0.6, 0.4], [1.0, 0.0, 1.0, 0.0]]),
 )
+#: complex symbols covering every pattern of (real bit differs, imaginary bit differs): none, real only, imaginary only, both
 STREAM_COMPLEX = (
     ([[0.9 + 0.1j, 0.2 + 0.8j], [0.7 + 0.6j, 0.1 + 0.3j]], [[0.8 + 0.7j, 0.9 + 0.9j], [0.2 + 0.9j, 0.0 + 0.2j]]),
     ([[0.1 + 0.9j, 0.6 + 0.6j]], [[0.9 + 0.8j, 0.4 + 0.7j]]),
+    ([[0.9 + 0.9j, 0.1 + 0.8j], [0.2 + 0.1j, 0.7 + 0.2j]], [[0.1 + 0.1j, 0.9 + 0.2j], [0.8 + 0.9j, 0.7 + 0.2j]]),
 )
 
 
@@ -336,6 +340,9 @@ def streaming_evaluated(repo: Repo, ci, err_attr: str, tot_attr: str, attrs0: Di
         return float(v)
 
     groups = [("real", STREAM_BATCHES), ("complex", STREAM_COMPLEX)]
+    from .. import frag as _frag
+
+    _frag.COVERAGE = set()
     try:
         for kind, batches in groups:
             for k in range(1, len(batches) + 1):
@@ -351,8 +358,15 @@ def streaming_evaluated(repo: Repo, ci, err_attr: str, tot_attr: str, attrs0: Di
                 if abs(streamed - oneshot) > 1e-12:
                     return False, f"{kind} batches of {[len(b[0]) for b in batches[:k]]} rows: update()+compute() gives {streamed!r}, forward() on the concatenated data gives {oneshot!r}"
     except Unfoldable as exc:
+        _frag.COVERAGE = None
         return None, str(exc)
-    return True, f"update() over 1..{len(STREAM_BATCHES)} batches + compute() equals forward() on the concatenated data ({', '.join(g for g, _ in groups)} samples)"
+    # "agrees on the samples" is only said when the samples reached every branch of the evaluated methods
+    missed = _frag.unreached_branches([f_.node for f_ in (fwd, upd, comp)] + [nd_ for nd_ in funcs.values()])
+    _frag.COVERAGE = None
+    if missed:
+        st_, flag_ = missed[0]
+        return None, f"the samples never take the {'true' if flag_ else 'false'} arm of `if {unparse(st_.test)[:60]}` (line {st_.lineno}): agreement on them does not cover that path"
+    return True, f"update() over 1..{len(STREAM_BATCHES)} batches + compute() equals forward() on the concatenated data ({', '.join(g for g, _ in groups)} samples; every branch of the three methods reached)"
 
 
 #: error patterns that tell `any` from `all`, the block axis from the other axes and consecutive from strided blocks
@@ -387,6 +401,10 @@ def blocks_evaluated(repo: Repo, ci, m: str):
 
     X = [[0.0] * 4 for _ in BLOCK_PATTERNS]
     Y = [[float(e) for e in r] for r in BLOCK_PATTERNS]
+    from ..frag import coverage_scope
+
+    scope = coverage_scope()
+    scope.__enter__()
     try:
         for bs in (2, None, 4, 1):
             size = bs or 4
@@ -403,7 +421,19 @@ def blocks_evaluated(repo: Repo, ci, m: str):
             if abs(got - want) > 1e-12:
                 return False, f"block_size {bs}: error pattern {BLOCK_PATTERNS} gives {got!r}; {sum(1 for b in blocks if any(b))} of its {len(blocks)} blocks of {size} consecutive elements contain an error ({want!r})"
     except Unfoldable as exc:
+        scope.__exit__()
         return None, str(exc)
+    scope.__exit__()
+    # branches that only serve empty inputs / the other reductions are outside this evaluation's claim
+    gap = None
+    for st_, flag_ in scope.missed([ci.methods[m].node] + ([ci.methods["compute"].node] if m == "update" else [])):
+        txt_ = unparse(st_.test)
+        if "reduction" in txt_ or "numel() == 0" in txt_ or "> 0" in txt_:
+            continue
+        gap = f"the samples never take the {'true' if flag_ else 'false'} arm of `if {txt_[:60]}` (line {st_.lineno})"
+        break
+    if gap:
+        return None, gap
     return True, "block_size 2 / None / 4 / 1: the rate is the fraction of consecutive runs of block_size elements containing an error"
 
 
